@@ -65,9 +65,7 @@ FLOAT_TARGETS = [
     ('note_seq.performance_lib', 'MetricPerformance.to_sequence@seconds_per_step', 'trf_sigma_metric', 'F', {'qpm': 'F'}),
     ('note_seq.performance_lib', 'Performance.to_sequence@seconds_per_step', 'trf_sigma_performance', 'F', {}),
     ('note_seq.performance_lib', 'NotePerformance.to_sequence@seconds_per_step', 'trf_sigma_noteperformance', 'F', {}),
-    ('note_seq.audio_io', 'crop_samples@samples_to_crop', 'trf_crop_begin', 'Z',
-     {'samples': 'len', 'sample_rate': 'Z', 'crop_beginning_seconds': 'F', 'total_length_seconds': 'F'}),
-    ('note_seq.audio_io', 'crop_samples@total_samples', 'trf_crop_total', 'Z',
+    ('note_seq.audio_io', 'crop_samples@samples_to_crop,total_samples', 'trf_crop_bounds', 'ZZ',
      {'samples': 'len', 'sample_rate': 'Z', 'crop_beginning_seconds': 'F', 'total_length_seconds': 'F'}),
     ('note_seq.audio_io', 'repeat_samples_to_duration@num_repeats', 'trf_num_repeats', 'Z',
      {'samples': 'len', 'sample_rate': 'Z', 'duration': 'F'}),
@@ -107,6 +105,8 @@ class Tr(object):
         if isinstance(e, ast.Name):
             if e.id in env:
                 ty = self.types.get(env[e.id], 'Z')
+                if ty == 'L':
+                    raise TranslationError('list variable %s used as a number' % e.id)
                 return env[e.id], ('bool' if ty == 'B' else ty)
             v = getattr(self.mod, e.id, None)
             if isinstance(v, int) and not isinstance(v, bool):
@@ -127,6 +127,15 @@ class Tr(object):
             raise TranslationError('unknown attribute %s' % k)
         if self.is_elem(e):
             return env['@elem'], 'Z'
+        if isinstance(e, ast.Subscript) and isinstance(e.value, ast.Name) and ('@dict:' + e.value.id) in env:
+            # d[k] of a local constant dict: a KeyError is an exception (guard), the value an if-chain
+            items = env['@dict:' + e.value.id]
+            k = self.z(e.slice, env)
+            self.guards.append(('cond', self.dict_member(k, items, False)))
+            out = '(0)'
+            for kt, vt in reversed(items):
+                out = '(if (%s =? %s) then %s else %s)' % (k, kt, vt, out)
+            return out, 'Z'
         if isinstance(e, ast.UnaryOp):
             if isinstance(e.op, ast.USub):
                 return '(- %s)' % self.z(e.operand, env), 'Z'
@@ -166,13 +175,20 @@ class Tr(object):
             parts = []
             left = e.left
             for op, right in zip(e.ops, e.comparators):
-                if isinstance(op, ast.In) and isinstance(right, ast.Tuple) and right.elts:
+                if isinstance(op, (ast.In, ast.NotIn)) and isinstance(right, ast.Name) and \
+                        ('@dict:' + right.id) in env:
+                    parts.append(self.dict_member(self.z(left, env), env['@dict:' + right.id],
+                                                  isinstance(op, ast.NotIn)))
+                    left = right
+                    continue
+                if isinstance(op, (ast.In, ast.NotIn)) and isinstance(right, (ast.Tuple, ast.List, ast.Set)) \
+                        and right.elts:
                     a = self.z(left, env)
                     alts = ['(%s =? %s)' % (a, self.z(x, env)) for x in right.elts]
                     out = alts[0]
                     for x in alts[1:]:
                         out = '(%s || %s)' % (out, x)
-                    parts.append(out)
+                    parts.append('(negb %s)' % out if isinstance(op, ast.NotIn) else out)
                     left = right
                     continue
                 if self.is_float(left, env) or self.is_float(right, env):
@@ -254,6 +270,15 @@ class Tr(object):
         raise TranslationError('expression %s' % type(e).__name__)
 
     @staticmethod
+    def dict_member(k, items, negate):
+        if not items:
+            return 'true' if negate else 'false'
+        out = '(%s =? %s)' % (k, items[0][0])
+        for kt, _ in items[1:]:
+            out = '(%s || (%s =? %s))' % (out, k, kt)
+        return '(negb %s)' % out if negate else out
+
+    @staticmethod
     def flit(x):
         import math
         if math.isnan(x) or math.isinf(x):
@@ -269,10 +294,20 @@ class Tr(object):
         finally:
             self.calls, self.guards = saved
 
+    @staticmethod
+    def is_list_expr(e):
+        return isinstance(e, ast.List) or (isinstance(e, ast.BinOp) and isinstance(e.op, ast.Mult) and
+                                           (isinstance(e.left, ast.List) or isinstance(e.right, ast.List)))
+
     def lst(self, e, env):
-        """list-valued expressions of the stateful subset: [x] * n, self._events"""
+        """list-valued expressions of the stateful subset: [x] * n, n * [x], [x], a local list variable, self._events"""
         if ast.unparse(e) == 'self._events' and '@events' in env:
             return env['@events']
+        if isinstance(e, ast.Name) and e.id in env and self.types.get(env[e.id]) == 'L':
+            return env[e.id]
+        if (isinstance(e, ast.BinOp) and isinstance(e.op, ast.Mult) and isinstance(e.right, ast.List) and
+                len(e.right.elts) == 1):
+            return '(repeat %s (Z.to_nat %s))' % (self.z(e.right.elts[0], env), self.z(e.left, env))
         if (isinstance(e, ast.BinOp) and isinstance(e.op, ast.Mult) and isinstance(e.left, ast.List) and
                 len(e.left.elts) == 1):
             return '(repeat %s (Z.to_nat %s))' % (self.z(e.left.elts[0], env), self.z(e.right, env))
@@ -344,6 +379,8 @@ class Tr(object):
                     body = 'if PrimFloat.eqb %s 0%%float then None else %s' % (g[1], body)
                 elif isinstance(g, tuple) and g[0] == 'fin':
                     body = 'if finb %s then %s else None' % (g[1], body)
+                elif isinstance(g, tuple) and g[0] == 'cond':
+                    body = 'if %s then %s else None' % (g[1], body)
                 else:
                     body = 'if (%s =? 0) then None else %s' % (g, body)
             for tmp, call in reversed(calls):
@@ -410,13 +447,37 @@ class Tr(object):
                 key = 'self.' + tgt.attr
             else:
                 raise TranslationError('assignment target')
+            if isinstance(tgt, ast.Name) and isinstance(s.value, ast.Dict):
+                # a local constant table {const: int-expr}: kept symbolically, read through `in` and subscripts
+                items = []
+                for kx, vx in zip(s.value.keys, s.value.values):
+                    if kx is None:
+                        raise TranslationError('dict unpacking')
+                    text_k, wrap_k = self.with_effects(lambda: self.z(kx, env))
+                    text_v, wrap_v = self.with_effects(lambda: self.z(vx, env))
+                    if wrap_k('x') != 'x' or wrap_v('x') != 'x':
+                        raise TranslationError('dict entry with effects')
+                    items.append((text_k, text_v))
+                env2 = dict(env)
+                env2['@dict:' + tgt.id] = items
+                env2.pop(tgt.id, None)
+                return self.block(tail, env2, rest, kind)
+            if isinstance(tgt, ast.Name) and kind == 'state' and isinstance(s.value, (ast.List, ast.BinOp)) and \
+                    self.is_list_expr(s.value):
+                text, wrap = self.with_effects(lambda: self.lst(s.value, env))
+                self.fresh += 1
+                var = '%s_%d' % (tgt.id, self.fresh)
+                env2 = dict(env)
+                env2[tgt.id] = var
+                self.types[var] = 'L'
+                return wrap('let %s := %s in %s' % (var, text, self.block(tail, env2, rest, kind)))
             box = {}
 
             def build():
                 t, ty = self.expr(s.value, env)
-                if ty == 'bool':
-                    raise TranslationError('boolean assigned to a variable')
-                box['ty'] = ty
+                if ty == 'bool' and not isinstance(tgt, ast.Name):
+                    raise TranslationError('boolean assigned to an attribute or element')
+                box['ty'] = 'B' if ty == 'bool' else ty
                 return t
             text, wrap = self.with_effects(build)
             self.fresh += 1
@@ -459,12 +520,20 @@ def translate(modname, qual, coqname, kind, coqnames, ptypes=None):
             raise TranslationError('nested function %s not found exactly once in %s' % (nested, qual))
         fd = inner[0]
     if upto:
+        # "f@a" : value of local a after the straight-line prefix ending at its first assignment;
+        # "f@a,b": the pair (a, b) after the prefix that contains the first assignment of both (order-insensitive)
+        wanted = upto.split(',')
         body0 = [x for x in fd.body if not (isinstance(x, ast.Expr) and isinstance(x.value, ast.Constant))]
-        idx = [i for i, x in enumerate(body0) if isinstance(x, ast.Assign) and len(x.targets) == 1 and
-               isinstance(x.targets[0], ast.Name) and x.targets[0].id == upto]
-        if not idx:
-            raise TranslationError('no assignment to %s in %s' % (upto, qual))
-        fd.body = body0[:idx[0] + 1] + [ast.Return(value=ast.Name(id=upto, ctx=ast.Load()))]
+        last = -1
+        for w in wanted:
+            idx = [i for i, x in enumerate(body0) if isinstance(x, ast.Assign) and len(x.targets) == 1 and
+                   isinstance(x.targets[0], ast.Name) and x.targets[0].id == w]
+            if not idx:
+                raise TranslationError('no assignment to %s in %s' % (w, qual))
+            last = max(last, idx[0])
+        names_ = [ast.Name(id=w, ctx=ast.Load()) for w in wanted]
+        ret = names_[0] if len(names_) == 1 else ast.Tuple(elts=names_, ctx=ast.Load())
+        fd.body = body0[:last + 1] + [ast.Return(value=ret)]
     a = fd.args
     if a.vararg or a.kwarg or a.kwonlyargs or a.kw_defaults:   # positional defaults are fine: every parameter is explicit
         raise TranslationError('unsupported signature: %s' % qual)
